@@ -50,10 +50,16 @@ class C11(SessionCheck):
                 return None
             if bad or not io['connected_before_close']:
                 return ('C11:notification-disturbed-rpc@' + sc['profile'], 'with notifications interleaved a request failed (%s) or the session died' % (bad[0]['out'][1] if bad else 'disconnected'))
-            if not io['take_empty_nonblocking'] or io['take_empty_nonblocking_dt'] > 0.2:
+            if not io['take_empty_nonblocking'] or io['take_empty_nonblocking_dt'] > 1.0:
                 return ('C11:take-nonblocking', 'non-blocking take on an empty queue did not return None immediately')
-            if not io['take_empty_blocking'] or not (0.2 <= io['take_empty_blocking_dt'] <= 2.5):
+            if not io['take_empty_blocking'] or not (0.2 <= io['take_empty_blocking_dt'] <= 4):
                 return ('C11:take-timeout', 'blocking take(timeout=0.25) on an empty queue returned after %.2fs' % io['take_empty_blocking_dt'])
+            st, none, dt = io.get('take_nonblocking_with_timeout', ['ok', True, 0])
+            if st != 'ok' or not none or dt > 1.5:
+                return ('C11:take-nonblocking', 'take_notification(block=False, timeout=3) on an empty queue: %s after %.2fs (expected None at once)' % (st, dt))
+            st, none, dt = io.get('take_blocking_zero', ['ok', True, 0])
+            if st != 'ok' or not none or dt > 1.5:
+                return ('C11:take-timeout', 'take_notification(block=True, timeout=0) on an empty queue: %s after %.2fs (expected None after 0 s)' % (st, dt))
             return None
         info = case.get('info') or {}
         texts = info.get('server_texts', [])
